@@ -406,6 +406,12 @@ OP_ATTR = {"set_child": "child", "set_lazy": "lazy", "read_lazy": "lazy",
            "del_attr": None, "redefine": None}
 
 
+def gen_detached_op(r, npool):
+    return {"k": "detached", "i": r.randrange(4),
+            "ops": {"list": gen_list_inner(r, npool), "dict": gen_dict_inner(r, npool),
+                    "set": gen_set_inner(r, npool)}}
+
+
 def inflight_keys(world, op):
     """Keys of the observables an op is about to change (for the rule that
     re-entrant actions must not conflict with the change being dispatched):
@@ -469,6 +475,8 @@ class World:
         self.allow_k3 = False
         self.del_enabled = False     # 'del node.trait' ops (C08 turns them on)
         self.redefine_enabled = False
+        self.detached_enabled = False
+        self.detached = []           # (kind, trait name, replaced container, its model)
         self.ctor_value = ctor_value
         if sut_on:
             CUR["world"] = self
@@ -480,6 +488,7 @@ class World:
             self.new_node(classes[i] if i < len(classes) else self.default_cls)
 
     def close(self):
+        del self.detached[:]
         if self.sut_on:
             CUR["world"] = None
             values.OBJECTS.clear()
@@ -520,6 +529,8 @@ class World:
         w.allow_k3 = self.allow_k3
         w.del_enabled = self.del_enabled
         w.redefine_enabled = self.redefine_enabled
+        w.detached_enabled = False
+        w.detached = []
         w.ctor_value = self.ctor_value
         w.pinned_uids = set(getattr(self, "pinned_uids", ()))
         return w
@@ -807,9 +818,24 @@ class World:
             value = mk_sut()
             self._do(step, "N%d.%s = %r" % (m.uid, name, value), setattr, n, name, value)
             new = n.__dict__.get(name)
+            if self.detached_enabled and old is not UNSET and oldm is not UNSET \
+                    and name in ("children", "table", "group") and old is not new:
+                # keep an alias to the replaced container: it can still be mutated
+                self.detached.append((CONTAINERS[name], name, old, oldm))
+                del self.detached[:-4]
             if old is UNSET:
                 old = ("default",)
         return [Change("trait", mobj=m, obj=n, name=name, changed=changed, old=old, new=new)]
+
+    def op_detached(self, op, step):
+        """Mutate a container that WAS the value of a trait and has been replaced
+        there (through an alias kept by the caller): nothing of it is reachable any
+        more, whatever is put into it is not reachable either."""
+        if not self.detached or not self.sut_on:
+            return []
+        ckind, name, cont, mcont = self.detached[op["i"] % len(self.detached)]
+        return self._mutate(dict(op, o=0), step, name, ckind,
+                            lambda n: cont, lambda m: mcont, op["ops"][ckind])
 
     def op_redefine(self, op, step):
         """``node.add_trait(name, <an equivalent definition>)`` on a name the node
